@@ -7,8 +7,10 @@ CLOSED = ["Noh", "Noh2", "Noh2Cog"] + COG
 PATTERNS = [("SCS", "ul>ur"), ("RCR", "ul<ur")] + [(p, u) for p in ("SCR", "RCS") for u in ("ul<ur", "ul=ur", "ul>ur")]
 
 
-def fams(groups, closed=True, riemann=True, only=None):
+def fams(groups, closed=True, riemann=True, only=None, sedov=True):
     d = {}
+    if sedov:
+        d["Sedov"] = ("sedov", groups)
     if closed:
         for f in (only or CLOSED):
             d[f] = ("hydro", groups)
